@@ -1,6 +1,6 @@
 (* C17 — truncated or ill-formed expressions are rejected by Compile.
    Property theorems only; proofs in Proofs/BuildFacts.v and Proofs/ParseTerm.v.
-   PARTIAL: proved — unknown function names, wrong argument counts, unknown axis
+   Proved — unknown function names, wrong argument counts, unknown axis
    names (incl. the namespace axis), variable references are build errors for
    ALL parse trees; a successful parse consumed the whole input (so anything
    left over after a complete expression is an error).  Not proved: that each
@@ -43,3 +43,73 @@ Theorem C17_eof_only_at_end : forall s s', next_item s = Ok s' -> s_typ s' = IEO
   skipsp (s_rest s) = nil \/ cur (skipsp (s_rest s)) = 0%N.
 Proof. exact next_item_eof. Qed.
 Print Assumptions C17_eof_only_at_end.
+
+(* ---- the parser rejects truncated input (Proofs/ParseReject.v) ----
+   [cannot_start t]: no expression starts with token t (end of input, a closing
+   bracket or parenthesis, a comma, an operator ...); the set is exact.  The
+   theorems are stated at the parser state of the damaged construct, after any
+   number of complete rounds of the enclosing loop. *)
+From XP.Proofs Require Import ParseAssoc ParseReject.
+
+(* wherever an operand is required and the next token cannot start one — in
+   particular at the end of the input — the parser fails *)
+Theorem C17_operand_required : forall ns f what n st,
+  2 <= f -> cannot_start (typ st) = true -> exists msg, pgo ns f what n st = Err msg.
+Proof. exact pgo_bad_start_is_error. Qed.
+Print Assumptions C17_operand_required.
+
+(* cut after a binary operator, at any of the seven operator levels, after any number of complete operands *)
+Theorem C17_cut_after_operator : forall ns g l n st a0 st' ops stm op st1,
+  let st0 := mkP (p_s st) (S (p_d st)) in
+  (l = LUnion -> typ st <> IMinus) ->
+  level_sub ns g l n st0 = Ok (a0, st') ->
+  bin_pre (level_op l) (level_sub ns g l n) st' ops stm ->
+  level_op l stm = Some op -> pnext stm = Ok st1 -> cannot_start (typ st1) = true ->
+  List.length ops <= g -> is_err (pgo ns (S (S g)) EExpr n st).
+Proof. exact pgo_expr_trunc_after_operator. Qed.
+Print Assumptions C17_cut_after_operator.
+
+(* cut after '/' or '//' after any number of complete steps *)
+Theorem C17_cut_after_slash : forall ns f n st n' st' k fuel,
+  rel_run (pgo ns (S f) EStep) n st n' st' k -> k < fuel -> cannot_start_step (typ st') = true ->
+  is_err (relpath_loop fuel (pgo ns (S f) EStep) n st).
+Proof. exact pgo_relpath_trunc. Qed.
+Print Assumptions C17_cut_after_slash.
+
+(* cut after '[' ; a predicate whose ']' is missing *)
+Theorem C17_cut_after_bracket : forall ns f n st o st2 st3,
+  is_nodetest_start (typ st) = true -> parse_node_test ns n "child" NTElem st = Ok (o, st2) ->
+  typ st2 = ILBracket -> pnext st2 = Ok st3 -> cannot_start (typ st3) = true ->
+  is_err (pgo ns (S (S (S f))) EStep n st).
+Proof. exact pgo_step_after_bracket. Qed.
+Print Assumptions C17_cut_after_bracket.
+Theorem C17_missing_closing_bracket : forall ns f n st o st2 st3 c st4,
+  is_nodetest_start (typ st) = true -> parse_node_test ns n "child" NTElem st = Ok (o, st2) ->
+  typ st2 = ILBracket -> pnext st2 = Ok st3 -> pgo ns (S f) EExpr (Some o) st3 = Ok (c, st4) ->
+  typ st4 <> IRBracket -> pgo ns (S (S f)) EStep n st = Err "has an invalid token".
+Proof. exact pgo_step_missing_rbracket. Qed.
+Print Assumptions C17_missing_closing_bracket.
+
+(* cut after '@' or after an axis name '::' *)
+Theorem C17_cut_after_at_or_axis : forall ns f n st st1,
+  typ st = IAt \/ typ st = IAxe -> pnext st = Ok st1 -> is_nodetest_start (typ st1) = false ->
+  pgo ns (S f) EStep n st = Err "expression must evaluate to a node-set".
+Proof. exact pgo_step_after_at. Qed.
+Print Assumptions C17_cut_after_at_or_axis.
+
+(* an unclosed string literal is a scanner error *)
+Theorem C17_unclosed_literal : forall s q,
+  let l := skipsp (s_rest s) in
+  q = 34%N \/ q = 39%N -> cur l = q -> ~ In (Ascii.ascii_of_N q) (advance l) ->
+  next_item s = Err "xpath: scanString got unclosed string".
+Proof. exact next_item_unclosed_bytes. Qed.
+Print Assumptions C17_unclosed_literal.
+
+(* anything left over after a complete expression is an error; parse succeeds iff
+   the expression parser ends exactly on the end-of-input token *)
+Theorem C17_trailing_garbage : forall text ns s1 a st,
+  next_item (init_scanner text) = Ok s1 ->
+  pgo ns (default_fuel text) EExpr None (mkP s1 0) = Ok (a, st) -> typ st <> IEOF ->
+  parse text ns = Err "has an invalid token".
+Proof. exact parse_trailing_garbage. Qed.
+Print Assumptions C17_trailing_garbage.
